@@ -113,6 +113,9 @@ def expected_tokens(stream, alphabetical):
     return [x for x in out if not (x[0] == "chars" and x[1] == "")]
 
 
+_MISMATCH = [0]      # index (into the expected tokens) of the first token that did not read back
+
+
 def read_back(output, expected, scripting, alphabetical):
     """Drive the reference tokenizer over `output` in step with the expected tokens -> None or (bucket, message)."""
     stack = []         # namespaces of open elements (as given)
@@ -130,23 +133,29 @@ def read_back(output, expected, scripting, alphabetical):
         if pending_chars:
             if i < len(expected) and expected[i][0] == "chars":
                 if expected[i][1] != pending_chars:
+                    _MISMATCH[0] = i
                     return "text", "text read back as %s, given %s" % (short(pending_chars, 100), short(expected[i][1], 100))
                 i += 1
             else:
+                _MISMATCH[0] = i
                 return "extra-text", "text %s read back where %s was given" % (short(pending_chars, 80), short(expected[i] if i < len(expected) else "end of stream", 100))
             pending_chars = ""
         if t[0] == "eof":
             break
         if i >= len(expected):
+            _MISMATCH[0] = i
             return "extra-token", "token %s read back after the end of the given stream" % short(t, 120)
         e = expected[i]
         if e[0] == "chars":
+            _MISMATCH[0] = i
             return "missing-text", "given text %s is not read back (next token %s)" % (short(e[1], 80), short(t, 100))
         if t[0] == "start":
             if e[0] != "start" or e[1] != t[1]:
+                _MISMATCH[0] = i
                 return "tag", "start tag <%s> read back where %s was given" % (short(t[1], 40), short(e[:2], 100))
             rattrs = sorted(t[2]) if alphabetical else t[2]
             if rattrs != e[2]:
+                _MISMATCH[0] = i
                 return "attributes", "attributes of <%s> read back as %s, given %s" % (t[1], short(rattrs, 150), short(e[2], 150))
             ns, ty = e[3], e[4]
             html = ns in (None, HTML_NS)
@@ -163,17 +172,21 @@ def read_back(output, expected, scripting, alphabetical):
                         tok.state = "plaintext"
         elif t[0] == "end":
             if e[0] != "end" or e[1] != t[1]:
+                _MISMATCH[0] = i
                 return "tag", "end tag </%s> read back where %s was given" % (short(t[1], 40), short(e[:2], 100))
             if stack:
                 stack.pop()
         elif t[0] == "comment":
             if e[0] != "comment" or e[1] != t[1]:
+                _MISMATCH[0] = i
                 return "comment", "comment %s read back where %s was given" % (short(t[1], 80), short(e, 100))
         elif t[0] == "doctype":
             if e[0] != "doctype" or (t[1] or "") != e[1] or (t[2] or "") != e[2] or (t[3] or "") != e[3]:
+                _MISMATCH[0] = i
                 return "doctype", "doctype read back as %s, given %s" % (short(t[1:4], 120), short(e, 120))
         i += 1
     if i < len(expected):
+        _MISMATCH[0] = i
         return "missing-token", "given token %s is not read back" % short(expected[i], 120)
     return None
 
@@ -191,10 +204,22 @@ def _unencodable(s, enc):
         return True
 
 
-def known_triggers(stream, opts, scripting, enc=None):
-    """feature classifiers of the recorded serializer defects -> list of finding ids whose trigger is present"""
+# findings whose effect is confined to the token that carries the trigger; the others derail the lexer from that token on
+_POINT = frozenset(["C08-attr-prefix-dropped", "C08-cr-written-raw", "C08-lone-surrogate-encoded", "C08-c1-unrepresentable", "C08-boolean-minimisation-value",
+                    "C08-rawtext-unencodable-charref", "C08-escape-rcdata-rawtext"])
+
+
+def known_triggers(stream, opts, scripting, enc=None, at=None):
+    """feature classifiers of the recorded serializer defects -> finding ids whose trigger can explain a mismatch at expected-token
+    index `at`: a trigger ON that token, or - for the findings that derail the lexer - on any token before it.  (at=None: anywhere.)"""
     from html5lib.constants import booleanAttributes
-    out = []
+    located = []
+
+    class _Out(object):
+        def append(self, fid):
+            located.append((exp_i[0], fid))
+    out = _Out()
+    exp_i = [-1]
     open_el = []
     merged = []
     for t in stream:
@@ -204,6 +229,8 @@ def known_triggers(stream, opts, scripting, enc=None):
             merged.append(t)
     for t in merged:
         ty = t["type"]
+        if not (ty in ("Characters", "SpaceCharacters") and t["data"] == ""):
+            exp_i[0] += 1          # the expected-token list has one entry per merged token (empty text is dropped there)
         if ty in ("StartTag", "EmptyTag"):
             html = t["namespace"] in (None, HTML_NS)
             if ty == "StartTag":
@@ -260,7 +287,14 @@ def known_triggers(stream, opts, scripting, enc=None):
         elif ty == "Doctype":
             if '"' in (t["publicId"] or "") or ">" in (t["publicId"] or "") or ">" in (t["systemId"] or "") or any(c in (t["name"] or "") for c in " \t\n\x0c>"):
                 out.append("C08-doctype-quote")
-    return sorted(set(out))
+    if at is None:
+        return sorted(set(f for _, f in located))
+    return sorted(set(f for k, f in located if k == at or (f not in _POINT and k < at) or (f in _POINT and ty_is_end_adjacent(k, at))))
+
+
+def ty_is_end_adjacent(k, at):
+    # a point finding on the token just before also explains a mismatch that surfaces one token later (text that merges with what follows)
+    return k == at - 1
 
 
 @guarded(40)
@@ -343,7 +377,7 @@ def check_case(case):
     res = read_back(out, exp, scripting, alphabetical)
     if res is None:
         return Verdict("pass", nontrivial=nontrivial, sig=sig, classes=classes)
-    trig = [f for f in known_triggers(given, opts, scripting, enc) if active(f)]
+    trig = [f for f in known_triggers(given, opts, scripting, enc, at=_MISMATCH[0]) if active(f)]
     if trig:
         return Verdict("known", finding="+".join(trig), nontrivial=nontrivial, sig=sig, classes=classes)
     bucket, msg = res
